@@ -24,7 +24,7 @@ def configs(ck, nsched):
 
 
 def run(ck, pid="C03", theorems=THEOREMS, module="Properties_C03"):
-    ck.prove([module, "SrcRun4", "RefineConcSimEx", "Properties_SrcConc"], theorems + ["SRC_protocol_follows_PipeConc"])   # SrcRun4: the translated protocol the traces are replayed on
+    ck.prove([module, "SrcRun4", "RefineConcSimEx", "Properties_SrcConc", "Properties_SrcConc2"], theorems + ["SRC_protocol_follows_PipeConc", "SRC_protocol_output_is_schedule_independent", "SRC_protocol_machine_is_followed_by_PipeConc", "SRC_protocol_machine_is_followed_by_PipeConc_while_main_runs"])   # SrcRun4: the translated protocol the traces are replayed on
     exe = shim_driver(ck)
     big = ck.tier == "thorough"
     res = run_schedules(ck, exe, configs(ck, 3000 if big else 400))
